@@ -149,6 +149,10 @@ theorem translated_get_expectation_value_from_frequencies_eq (marked : List Nat)
     | error e => rfl
     | ok par =>
       simp only [parResult, bind_ok, npSubS, npMulS]
+      -- `num_measurements`: the source is accepted in both forms, `sum(d.values())` (a `let`) and `sum(int(count) for count in d.values())`
+      -- (a generator expression over Python ints whose element is the loop variable: `mapE (fun count => .ok count)`, which is the list
+      -- itself – `py_mapE_ok_id`); after this step the two generated terms coincide
+      try simp only [py_mapE_ok_id, bind_ok]
       have hsig : List.map (fun x => x - 1) (List.map (fun x => x * 2) (par.map Int.ofNat)) = par.map (fun p => ((p : Nat) : Int) * 2 - 1) := by
         simp [List.map_map, Function.comp_def]
       rw [OQ.C13.py_sum_ofNat, zip1_broadcast, hsig]
